@@ -4,7 +4,7 @@ A unit is a template file vx/units/<unit>.rs: ordinary Verus source (spec fns, l
 trusted stubs) interleaved with directive blocks
 
     //@extract <repo-relative file> :: <item path>
-    //@extractblock <file> :: <fn path>   with //@from <first statement> //@to <last statement>
+    //@extractblock <file> :: <fn path>   with //@from <first statement> //@to <last statement> [//@close <text>]
                                    //@wrap fn name(params) -> (r: T)  — R14: a verbatim block of a
                                    function body becomes the body of a synthetic function
     //@ret r                       name the return value:  -> T   becomes   -> (r: T)
@@ -446,8 +446,11 @@ def extract_block(repo, relfile, path, subs, rules_used):
   b1 = tail[(tw or 1) - 1][1]
   block = src[a0:b1]
   first_line = src.count('\n', 0, a0) + 1
-  synthetic = wrap[0][1].strip() + ' {\n' + block + '\n}\n'
-  rest = [x for x in subs if x[0] not in ('from', 'to', 'wrap')]
+  # `//@close <text>`: the block stops inside a nested body (e.g. before the early `return <node>` of an `if`); the
+  # rest of that body is dropped and <text> (closing braces, possibly a flag such as `return true; }`) closes it
+  close = ''.join('\n' + x[1].strip() for x in subs if x[0] == 'close')
+  synthetic = wrap[0][1].strip() + ' {\n' + block + close + '\n}\n'
+  rest = [x for x in subs if x[0] not in ('from', 'to', 'wrap', 'close')]
   name = re.search(r'\bfn\s+([A-Za-z0-9_]+)', wrap[0][1]).group(1)
   rules_used.add('R14')
   text, _, sha, applied, lost = extract_item(repo, relfile, 'fn ' + name, rest, rules_used, src_override=synthetic)
